@@ -1,6 +1,7 @@
 package main
 
 import (
+	"go/constant"
 	"sort"
 	"fmt"
 	"go/token"
@@ -751,4 +752,80 @@ func (E *Engine) slotObligations(p string, enc *FnEnc) {
 			PC: "true", Cond: cond, NDecls: 0, Pos: fmt.Sprintf("%s:%d", strings.TrimPrefix(slot.File, repoDir+"/"), slot.Line), Text: text, enc: enc, Trivial: cond == "true"}
 		enc.obls = append(enc.obls, o)
 	}
+}
+
+// initarg obligations: "//@ initarg[P] name = `text`" - the package variable is initialised
+// by a call whose first argument is exactly this constant string (regular-expression and
+// character-set tables whose content the contracts derive from the specification).  Read off
+// the SSA of the package initialiser; the variable must have no other store.
+type InitArg struct {
+	Global, Text string
+	Props        []string
+	Pkg, File    string
+	Line         int
+}
+
+func (E *Engine) initArgObligations(p string, enc *FnEnc) {
+	for _, ia := range E.CS.InitArgs {
+		if !hasProp(ia.Props, p) {
+			continue
+		}
+		got, why := E.initArgOf(ia.Pkg, ia.Global)
+		cond := "false"
+		if why == "" && got == ia.Text {
+			cond = "true"
+		}
+		text := fmt.Sprintf("%s is initialised from the constant %q", ia.Global, ia.Text)
+		if cond == "false" {
+			if why != "" {
+				text += " -- but " + why
+			} else {
+				text += fmt.Sprintf(" -- but the initialiser passes %q", got)
+			}
+		}
+		o := &Obl{Name: fmt.Sprintf("%s#initarg[%s]", ia.Pkg, ia.Global), Kind: "initarg", Func: "lemmas", Props: ia.Props,
+			PC: "true", Cond: cond, NDecls: 0, Pos: fmt.Sprintf("%s:%d", strings.TrimPrefix(ia.File, repoDir+"/"), ia.Line), Text: text, enc: enc, Trivial: cond == "true"}
+		enc.obls = append(enc.obls, o)
+	}
+}
+
+func (E *Engine) initArgOf(pkg, gname string) (string, string) {
+	sp := E.L.SSA[pkg]
+	if sp == nil {
+		return "", "no such package"
+	}
+	g := sp.Var(gname)
+	if g == nil {
+		return "", "no such variable"
+	}
+	var val ssa.Value
+	n := 0
+	for _, fn := range E.L.Funcs {
+		if fn.Pkg != sp {
+			continue
+		}
+		for _, b := range fn.Blocks {
+			for _, in := range b.Instrs {
+				if st, ok := in.(*ssa.Store); ok && st.Addr == g {
+					n++
+					val = st.Val
+					if !(fn.Name() == "init" || strings.HasPrefix(fn.Name(), "init#")) {
+						return "", "it is assigned outside the package initialiser (in " + fn.Name() + ")"
+					}
+				}
+			}
+		}
+	}
+	if n != 1 {
+		return "", fmt.Sprintf("it has %d stores", n)
+	}
+	call, ok := val.(*ssa.Call)
+	if !ok || len(call.Call.Args) == 0 {
+		return "", "its initialiser is not a call"
+	}
+	c, ok := call.Call.Args[0].(*ssa.Const)
+	if !ok || c.Value == nil || c.Value.Kind() != constant.String {
+		return "", "the first argument of its initialiser is not a constant string"
+	}
+	return constant.StringVal(c.Value), ""
 }
